@@ -199,3 +199,105 @@ def _seq(href):
         out.append(href.item)
         href = href.parent
     return list(reversed(out))
+
+
+def occurrences_job(fixture, tier, timeout_ms=300000):
+    """HRef.get_all_hrefs_of_instances(S) for an ARBITRARY subset S of the fixture's instances (symbolic
+    membership): the result is exactly the set of instance paths of the elaborated design that end in a member
+    of S, each once -- including members that are ancestors of other members."""
+    from spydrnet.util.hierarchical_reference import HRef
+    t0 = time.time()
+    name = "C11/HRef.get_all_hrefs_of_instances{%s}" % fixture
+    u, pre, fx = H.build(fixture)
+    heap = pre.copy()
+    ctx = Ctx(heap, M.REAL)
+    M.listeners_none(ctx)
+    ctx.loop_bound = 10
+    paths, ids = H.install_hrefs(ctx, u, fx)
+    fr = Frame(None, True, {})
+    n = u.live["Instance"]
+    wanted = [z3.Bool("wanted_%d" % i) for i in range(n)]
+    S = SList(n, [Ref(u.gid("Instance", i), ("Instance",)) for i in range(n)], None, True, list(wanted))
+    A = pre.type_constraints() + spec.inv_all(pre) + H.local_nets(pre, fx)
+    A = [B(a) for a in A if a is not True]
+    try:
+        res = call_function(ctx, fr, HRef.get_all_hrefs_of_instances, [S])
+    except Unsupported as e:
+        return [result(name, INCONCLUSIVE, "E1/symheap", detail="Unsupported: %s" % e, wall_s=time.time() - t0)]
+    ipaths = [p for p in paths if u.cls_of(p[-1])[0] == "Instance"]
+    cs, nodup = [], []
+    for p in ipaths:
+        pid = ATOMS.intern(p)
+        hits = [AND(present(res, k), EQ(to_atom(res.el[k]).t, pid)) for k in range(res.cap) if res.el[k] is not None]
+        member = OR(*hits)
+        want = wanted[u.cls_of(p[-1])[1]]
+        cs.append(EQ(member, want))
+        for x in range(len(hits)):
+            for y in range(x):
+                nodup.append(NOT(AND(hits[x], hits[y])))
+    # nothing but instance paths is returned
+    extra = []
+    allowed = {ATOMS.intern(p) for p in ipaths}
+    for k in range(res.cap):
+        if res.el[k] is not None:
+            extra.append(IMPLIES(present(res, k), OR(*[EQ(to_atom(res.el[k]).t, a) for a in allowed])))
+    funcs = sorted(fn_ident(f) for f in ctx.funcs_seen)
+    bounds = dict(u.describe(), fixture=fixture, instance_paths=len(ipaths), subsets="all 2^%d subsets of the instances (symbolic)" % n)
+    ok = [B(NOT(ctx.bound)), B(NOT(ctx.exc))]
+    tw = {"returns": M.check(A, AND(NOT(ctx.exc), NOT(ctx.bound)), 300000)[0]}
+    if tw["returns"] != "sat":
+        return [result(name, VACUOUS if tw["returns"] == "unsat" else INCONCLUSIVE, "E1/symheap", twins=tw,
+                       bounds=bounds, detail="normal return not shown reachable: %s" % sorted(set(ctx.bound_why))[:3])]
+    out = []
+    for g, goal in (("one-reference-per-occurrence-no-omission", NOT(AND(*cs))), ("no-duplicates", NOT(AND(*nodup))),
+                    ("only-occurrences-of-the-asked-instances", NOT(AND(*extra))), ("never-raises", None)):
+        oname = name + "/" + g
+        if goal is None:
+            st, dt, mdl = M.check(A + [B(NOT(ctx.bound))], ctx.exc, timeout_ms)
+        else:
+            st, dt, mdl = M.check(A + ok, goal, timeout_ms)
+        if st == "unsat":
+            out.append(result(oname, DISCHARGED, "E1/symheap", queries=1, solver_s=dt, twins=tw, bounds=bounds,
+                              functions=funcs, detail="unsat", wall_s=time.time() - t0, paths=1))
+        elif st != "sat":
+            out.append(result(oname, INCONCLUSIVE, "E1/symheap", detail="solver: %s" % st, bounds=bounds))
+        else:
+            state = replay.heap_to_state(pre, mdl)
+            rp = {"engine": "E1", "property": "C11", "obligation": oname, "kind": "occurrences", "state": state,
+                  "wanted": [u.gid("Instance", i) for i in range(n) if replay.mval(mdl, wanted[i]) is True],
+                  "top": u.gid("Instance", fx["top"])}
+            try:
+                viol, txt = replay_occurrences(rp)
+            except Exception:
+                viol, txt = False, "replay crashed: " + traceback.format_exc()[-400:]
+            out.append(result(oname, VIOLATED if viol else ERROR, "E1/symheap", queries=1, solver_s=dt, twins=tw,
+                              bounds=bounds, functions=funcs, replay=rp if viol else None,
+                              detail=txt if viol else "counterexample did not reproduce: " + txt,
+                              wall_s=time.time() - t0))
+    return out
+
+
+def replay_occurrences(rp):
+    import spydrnet as sdn
+    from spydrnet.util.hierarchical_reference import HRef
+    with replay.listener_config("none"):
+        objs = replay.build(rp["state"])
+        built, _ = replay.abstract(objs)
+        diffs = replay.states_equal(rp["state"], built)
+        if diffs:
+            return False, "built state differs from the model: " + "; ".join(diffs[:3])
+        want_objs = [objs[g] for g in rp["wanted"]]
+        got = [tuple(id(x) for x in _seq(h)) for h in HRef.get_all_hrefs_of_instances(set(want_objs))] if want_objs else []
+        expect = []
+
+        def walk(path):
+            if any(path[-1] is w for w in want_objs):
+                expect.append(tuple(id(x) for x in path))
+            d = path[-1].reference
+            if d is not None:
+                for ch in d.children:
+                    walk(path + [ch])
+        walk([objs[rp["top"]]])
+        bad = sorted(got) != sorted(expect)
+        return bad, "asked for %d instances: %d references returned, %d occurrences exist" % (
+            len(want_objs), len(got), len(expect))
